@@ -652,7 +652,9 @@ def reproduce(trace, case, pid, clause, vh):
     tm, cfg = trace
     bads, consumed, _ = vlib.validate(tm, cfg, [ev_path], par=1)
     fresh = json.loads(p.stdout.splitlines()[0])
-    return any(b["prop"] == pid and b["clause"] == clause for b in bads) or \
+    # the case is reproduced when the re-executed case violates the same property again (measurements near a
+    # threshold may trip a different clause of the property on the second run)
+    return any(b["prop"] == pid for b in bads) or \
         any(b["clause"] == "panic" and clause == "panic" for b in bads), fresh
 
 
